@@ -1,6 +1,8 @@
 package props
 
 import (
+	"bytes"
+	"compress/flate"
 	"fmt"
 	"math/rand"
 	"strings"
@@ -420,6 +422,31 @@ var c06Deviations = []deviation{
 			}
 		}
 	}},
+	{"transport_encoding_damaged_behind_the_document", func(rng *rand.Rand, c *ssoCase) {
+		// the parameter holds the complete document, but as a whole it is not base64 / not a DEFLATE stream:
+		// characters outside the alphabet or a dangling character at the end, or a stream that never ends
+		c.Signed = false
+		c.WireEdit = func(s *ssoSend) {
+			good := spsim.B64([]byte(s.XML))
+			if s.Binding != "post" {
+				good = spsim.DeflateB64(s.XML)
+			}
+			good = strings.TrimRight(good, "=")
+			for len(good)%4 != 0 { // keep the intact part a whole number of quanta
+				good = good[:len(good)-1]
+			}
+			switch k := rng.Intn(4); {
+			case k == 0 && s.Binding != "post":
+				s.rawSAMLRequest = spsim.B64(deflateWithoutEnd([]byte(s.XML)))
+			case k == 1:
+				s.rawSAMLRequest = good + "!*!*"
+			case k == 2:
+				s.rawSAMLRequest = good + "A"
+			default:
+				s.rawSAMLRequest = good + "===="
+			}
+		}
+	}},
 	{"unknown_encoding", func(rng *rand.Rand, c *ssoCase) {
 		c.WireEdit = func(s *ssoSend) {
 			s.Encoding = []string{"urn:oasis:names:tc:SAML:2.0:bindings:URL-Encoding:GZIP", "deflate", "DEFLATE", spsim.EncDeflate + " ", strings.ToLower(spsim.EncDeflate), "x", "urn:oasis:names:tc:SAML:2.0:bindings:URL-Encoding:DEFLATE2", "none", "identity"}[rng.Intn(9)]
@@ -438,6 +465,15 @@ var c06Deviations = []deviation{
 		c.Signed = false
 		c.WireEdit = func(s *ssoSend) { s.rawSAMLRequest = ""; s.forceRaw = true }
 	}},
+}
+
+// deflateWithoutEnd compresses b into a DEFLATE stream that is flushed but lacks its final block.
+func deflateWithoutEnd(b []byte) []byte {
+	var buf bytes.Buffer
+	w, _ := flate.NewWriter(&buf, 6)
+	_, _ = w.Write(b)
+	_ = w.Flush()
+	return buf.Bytes()
 }
 
 func addConditions(rng *rand.Rand, c *ssoCase, nb, noa string) {
